@@ -615,3 +615,57 @@ def gen_program(rng, multi_client=False, nrt=True):
             nops += 1
     stats['add_actions'] = sorted(stats['add_actions'])
     return prog, stats
+
+
+def gen_sync_program(rng):
+    """One bind() block run inside a routine, with 0-3 `yield from
+    server.sync()` points between its commands (the form documented in
+    Server.bind), optionally raising after a random command.
+
+    {'pre': [ops outside the block], 'sections': [[ops], ...],
+     'sync_elements': [None | [msg, ...]] one per sync point,
+     'raise_at': section index | None (raise after that section's ops),
+     'clock': 'system' | 'app'}
+    """
+    pool = Pool()
+    stats = {'add_actions': set()}
+
+    def op(in_bind):
+        for _ in range(50):
+            o = gen_op(rng, pool, in_bind, stats, False, False)
+            # Buffer.free_all has no defined order; keep sections strictly ordered
+            if o['op'] == 'free_all':
+                continue
+            # a top-level /sync would be mistaken for a sync point on the wire
+            if o['op'] == 'server' and o['m'] == 'send_bundle' and \
+                    any(m[0] == '/sync' for m in o['msgs']):
+                continue
+            return o
+        raise AssertionError('no op')
+
+    pre = [op(False) for _ in range(rng.randint(0, 8))]
+    nsync = rng.choice([0, 1, 1, 2, 2, 3])
+    sizes = [rng.choice([0, 1, 1, 2, 3, 4]) for _ in range(nsync + 1)]
+    raise_at = None
+    if rng.random() < 0.3:
+        raise_at = rng.randint(0, nsync)
+        sizes = sizes[:raise_at + 1]
+        sizes[-1] = rng.randint(0, sizes[-1])
+    sections = []
+    elements = []
+    for k, n in enumerate(sizes):
+        if k > 0:
+            # messages that travel with the /sync of this sync point
+            if rng.random() < 0.2:
+                nodes = pool.live_nodes()
+                if nodes:
+                    elements.append([['/n_trace', {'$node': rng.choice(nodes)}]
+                                     for _ in range(rng.randint(1, 2))])
+                else:
+                    elements.append([['/status']])
+            else:
+                elements.append(None)
+        sections.append([op(True) for _ in range(n)])
+    stats['add_actions'] = sorted(stats['add_actions'])
+    return {'pre': pre, 'sections': sections, 'sync_elements': elements,
+            'raise_at': raise_at, 'clock': rng.choice(['system', 'system', 'app'])}, stats
